@@ -19,12 +19,12 @@ theorem new_ok (A : View α) (N : Nat) (Mss : Nat) (hN : 2 ≤ N) : new A N Mss 
 
 @[simp] def abs (A : View α) (s : State α A.σ) : A.σ × RoofState α := (s.view, { ss := { i := s.super_smoother.i, filt := s.super_smoother.filt, filt1 := s.super_smoother.filt_1, filt2 := s.super_smoother.filt_2, lastVal := s.super_smoother.last_val }, i := s.i, val1 := s.val_1, val2 := s.val_2, hp1 := s.hp_1, hp2 := s.hp_2 })
 
-theorem upd_eq (A : View α)  (s : State α A.σ) (x : α) (hd0 : s.alpha_1 = roofAlpha s.window_len) (hd1 : s.super_smoother.c1 = (ssCoef s.super_smoother.window_len).c1) (hd2 : s.super_smoother.c2 = (ssCoef s.super_smoother.window_len).c2) (hd3 : s.super_smoother.c3 = (ssCoef s.super_smoother.window_len).c3) :
+theorem upd_eq (A : View α)  (s : State α A.σ) (x : α)  (hd0 : s.alpha_1 = roofAlpha s.window_len) (hd1 : s.super_smoother.c1 = (ssCoef s.super_smoother.window_len).c1) (hd2 : s.super_smoother.c2 = (ssCoef s.super_smoother.window_len).c2) (hd3 : s.super_smoother.c3 = (ssCoef s.super_smoother.window_len).c3) :
     (update A s x).map (abs A) = (wrap A (roofCoreU s.window_len s.super_smoother.window_len)).upd (abs A s) x := by
   simp only [update, wrap, mapV, binop, roofCoreU, ssStep, ssOut, ssInit, SF.Gen.SuperSmoother.update, SF.Gen.SuperSmoother.last, echoV, abs]; gen_tie
-theorem upd_cfg (A : View α) (s s' : State α A.σ) (x : α) : update A s x = .ok s' → s'.window_len = s.window_len ∧ s'.super_smoother.window_len = s.super_smoother.window_len ∧ s'.alpha_1 = s.alpha_1 ∧ s'.super_smoother.c1 = s.super_smoother.c1 ∧ s'.super_smoother.c2 = s.super_smoother.c2 ∧ s'.super_smoother.c3 = s.super_smoother.c3 := by
+theorem upd_cfg (A : View α) (s s' : State α A.σ) (x : α)  : update A s x = .ok s' → s'.window_len = s.window_len ∧ s'.super_smoother.window_len = s.super_smoother.window_len ∧ s'.alpha_1 = s.alpha_1 ∧ s'.super_smoother.c1 = s.super_smoother.c1 ∧ s'.super_smoother.c2 = s.super_smoother.c2 ∧ s'.super_smoother.c3 = s.super_smoother.c3 := by
   simp only [update, roofCoreU, ssStep, ssOut, ssInit, SF.Gen.SuperSmoother.update, SF.Gen.SuperSmoother.last, echoV]; gen_tie
-theorem last_eq (A : View α)  (s : State α A.σ) (hd0 : s.alpha_1 = roofAlpha s.window_len) (hd1 : s.super_smoother.c1 = (ssCoef s.super_smoother.window_len).c1) (hd2 : s.super_smoother.c2 = (ssCoef s.super_smoother.window_len).c2) (hd3 : s.super_smoother.c3 = (ssCoef s.super_smoother.window_len).c3) : last A s = (wrap A (roofCoreU s.window_len s.super_smoother.window_len)).last (abs A s) := by
+theorem last_eq (A : View α)  (s : State α A.σ)  (hd0 : s.alpha_1 = roofAlpha s.window_len) (hd1 : s.super_smoother.c1 = (ssCoef s.super_smoother.window_len).c1) (hd2 : s.super_smoother.c2 = (ssCoef s.super_smoother.window_len).c2) (hd3 : s.super_smoother.c3 = (ssCoef s.super_smoother.window_len).c3) : last A s = (wrap A (roofCoreU s.window_len s.super_smoother.window_len)).last (abs A s) := by
   simp only [last, wrap, mapV, binop, roofCoreU, ssStep, ssOut, ssInit, SF.Gen.SuperSmoother.update, SF.Gen.SuperSmoother.last, echoV, abs]; gen_tie
 
 def sim (A : View α) (N : Nat) (Mss : Nat)  : Sim (mkView (s0 A N Mss) (update A) (last A)) (wrap A (roofCoreU N Mss)) where
@@ -34,15 +34,15 @@ def sim (A : View α) (N : Nat) (Mss : Nat)  : Sim (mkView (s0 A N Mss) (update 
   init_abs := by rfl
   upd := fun (s : State α A.σ) x hs => by
     obtain ⟨h0, h1, h2, h3, h4, h5⟩ := hs
-    have := upd_eq A s x  (by (try rw [h0]); (try rw [h1]); exact h2) (by (try rw [h0]); (try rw [h1]); exact h3) (by (try rw [h0]); (try rw [h1]); exact h4) (by (try rw [h0]); (try rw [h1]); exact h5)
+    have := upd_eq A s x   (by (try rw [h0]); (try rw [h1]); exact h2) (by (try rw [h0]); (try rw [h1]); exact h3) (by (try rw [h0]); (try rw [h1]); exact h4) (by (try rw [h0]); (try rw [h1]); exact h5)
     (try rw [h0] at this); (try rw [h1] at this); exact this
   upd_cfg := fun (s : State α A.σ) x s' hs h => by
     obtain ⟨h0, h1, h2, h3, h4, h5⟩ := hs
-    have := upd_cfg A s s' x h
+    have := upd_cfg A s s' x  h
     simp_all
   last := fun (s : State α A.σ) hs => by
     obtain ⟨h0, h1, h2, h3, h4, h5⟩ := hs
-    have := last_eq A s  (by (try rw [h0]); (try rw [h1]); exact h2) (by (try rw [h0]); (try rw [h1]); exact h3) (by (try rw [h0]); (try rw [h1]); exact h4) (by (try rw [h0]); (try rw [h1]); exact h5)
+    have := last_eq A s   (by (try rw [h0]); (try rw [h1]); exact h2) (by (try rw [h0]); (try rw [h1]); exact h3) (by (try rw [h0]); (try rw [h1]); exact h4) (by (try rw [h0]); (try rw [h1]); exact h5)
     (try rw [h0] at this); (try rw [h1] at this); exact this
 
 /-- the Rust text of `RoofingFilter`, as translated, and the model agree on every input: same answers, same panics -/
